@@ -305,11 +305,17 @@ impl PointerValue {
 
         self.value.and_then(|ptr| {
             let left = left.unwrap_or_default();
-            let base_addr = ptr as usize + deref_size * left;
+            // an empty or inverted range, a zero-sized pointee, or a range that does not fit
+            // the address space cannot be shown as an array
+            let count = right.checked_sub(left)?;
+            if deref_size == 0 {
+                return None;
+            }
+            let base_addr = (ptr as usize).checked_add(deref_size.checked_mul(left)?)?;
             let raw_data = weak_error!(debugger::read_memory_by_pid(
                 pcx.evcx.ecx.pid_on_focus(),
                 base_addr,
-                deref_size * (right - left)
+                deref_size.checked_mul(count)?
             ))?;
             let raw_data = bytes::Bytes::from(raw_data);
 
